@@ -161,13 +161,7 @@ func ResultFlowFields(fn *ssa.Function, i int) map[string]bool {
 
 // stripNot removes unary NOTs, flipping polarity.
 func stripNot(v ssa.Value, taken bool) (ssa.Value, bool) {
-	for {
-		if u, ok := v.(*ssa.UnOp); ok && u.Op == token.NOT {
-			v, taken = u.X, !taken
-			continue
-		}
-		return v, taken
-	}
+	return core.NormCond(v, taken)
 }
 
 // callDominates: call c executes before `at` on every path to `at`.
